@@ -13,7 +13,7 @@ from sa.report import Ctx
 from .common import generic_sweeps
 from sa.stutter import stutter_paths
 
-from .sat_common import SatRoles, check_add_sites, check_backtrack
+from .sat_common import SatRoles, check_add_sites, check_assumption_assertion, check_backtrack
 
 EXPLANATION = (
     "Decides structural necessary conditions of 'INFEASIBLE only without a model / always returns within budgets' on "
@@ -39,6 +39,7 @@ def run(ctx: Ctx):
     check_add_sites(ctx, roles, "C02-O5")
     check_backtrack(ctx, roles, "C02-O6")
     check_analyze_guard(ctx, roles)
+    check_assumption_assertion(ctx, roles, "C02-O7")
     ctx.assume("conflict-only cycles terminate because consecutive conflicts strictly lower the decision level (not verified)")
     generic_sweeps(ctx, skip_stutter_modules=("solvor/sat.py",))
 
@@ -241,6 +242,14 @@ def check_pure_vs_assumptions(ctx: Ctx, roles: SatRoles):
             if not guarded and loop is not None and loop.kind == "for":
                 it = loop.ast.iter
                 guarded = bool(names_in(it) & (derived - {"assumptions"})) or any(names_in(a) & derived for a in (it.args if isinstance(it, ast.Call) else []))
+            # the guard compares a VARIABLE with the set: the set must hold variables (lit_var / abs of each literal)
+            holds_vars = True
+            for d in derived - {"assumptions"}:
+                for v in assignments_to(f.node, d):
+                    if isinstance(v, ast.AST) and "assumptions" in names_in(v) and any(d in a for a in at):
+                        txt = ast.unparse(v)
+                        holds_vars = holds_vars and ("lit_var(" in txt or "abs(" in txt)
+            ctx.ob("C02-O4", "R26 IMPLIED-ONLY-BEFORE-ASSUMPTIONS", f, "the assumption guard set holds variables (lit_var/abs of every assumption literal), as the tested element is a variable", holds_vars, "a set of signed literals does not contain the variable of a negative assumption", node=n)
             ctx.ob("C02-O4", "R26 IMPLIED-ONLY-BEFORE-ASSUMPTIONS", f, "antecedent-free pre-assignment guarded against the assumption set", guarded, f"`{ast.unparse(n)}` guards {sorted(at)}; a pure literal contradicting an assumption makes a satisfiable call INFEASIBLE", node=n)
     ctx.count("antecedent-free pre-assignments", n_sites)
     # and the clash arm exists: propagate returns -2 -> INFEASIBLE; fine, but then O4 above is what keeps it sound
@@ -267,6 +276,18 @@ def check_analyze_guard(ctx: Ctx, roles: SatRoles):
             txt = " ; ".join(ast.unparse(s) for s in rest)
             ok = "assign(lit_var(learned_clause[0]), learned_clause[0] > 0, clause_idx)" in txt
             ctx.ob("C02-O5", "R25 REGISTRATION-TABLE", f, "backjump is followed by assertion of the learned clause's first literal with the clause as reason", ok, "", node=n)
+            # ... at the backjump level: no other backtrack may lie on a path from the backjump to the assertion
+            asserts = [cfg.stmt_node_containing(c) for c in own_nodes(f.node) if isinstance(c, ast.Call) and isinstance(c.func, ast.Name) and c.func.id == roles.assign.name and "learned_clause[0]" in ast.unparse(c)]
+            others = [cfg.stmt_node_containing(c) for c in own_nodes(f.node) if isinstance(c, ast.Call) and isinstance(c.func, ast.Name) and c.func.id == roles.backtrack.name and c is not n]
+            bad = False
+            for a_ in asserts:
+                mid = cfg.forward(sn, avoid={roles.main.id}) & cfg.backward(a_, avoid={roles.main.id})
+                if any(o.id in mid for o in others):
+                    bad = True
+            ctx.ob("C02-O5", "R25 REGISTRATION-TABLE", f, "the asserting literal is assigned at the backjump level (no restart / other backtrack between backjump and assertion)", bool(asserts) and not bad, "after a backtrack to another level the learned clause is no longer unit: its first literal would become a permanent fact", node=n)
+            learned_app = [cfg.stmt_node_containing(c) for c in own_nodes(f.node) if isinstance(c, ast.Call) and ast.unparse(c.func) == f"{roles.learned}.append" and ast.unparse(c.args[0]) == "learned_clause"]
+            ok3 = bool(learned_app) and all(not any(o.id in (cfg.forward(sn, avoid={roles.main.id}) & cfg.backward(l_, avoid={roles.main.id})) for o in others) for l_ in learned_app)
+            ctx.ob("C02-O5", "R25 REGISTRATION-TABLE", f, "the learned clause is stored before any restart can renumber the clause database", ok3, "", node=n)
             # dec_level mirrors len(trail_lim): assigned the same level right after the backtrack call
             ok2 = any(isinstance(s, ast.Assign) and ast.unparse(s.targets[0]) == "dec_level" and ast.unparse(s.value) == arg for s in rest[:2])
             ctx.ob("C02-O3", "R5 PAIRING", f, "dec_level tracks the backtrack level", ok2, "the level-0 test that certifies INFEASIBLE reads dec_level", node=n)
@@ -342,7 +363,32 @@ def _t_budget_flipped(tree):
     M.replace_expr(f, lambda e: M.src_is(e, "dec_level == 0 or conflict == -2"), M.expr("conflict == -2 or 0 == dec_level"))
 
 
+def _v_assumed_literals(tree):
+    f = M.find_func(tree, "solve_sat")
+    M.replace_expr(f, lambda e: M.src_is(e, "{lit_var(lit) for lit in assumptions}"), M.expr("set(assumptions)"))
+
+
+def _v_learn_after_restart(tree):
+    f = M.find_func(tree, "solve_sat")
+    blk = None
+    for n in ast.walk(f):
+        b = getattr(n, "body", None)
+        if isinstance(b, list) and any(M.src_is(s, "learned.append(learned_clause)") for s in b):
+            blk = b
+    if blk is None:
+        raise M.Skip("learned append not found")
+    i0 = next(k for k, s in enumerate(blk) if M.src_is(s, "clause_idx = len(clauses) + len(learned)"))
+    i1 = next(k for k, s in enumerate(blk) if isinstance(s, ast.If) and M.src_is(s.test, "learned_clause"))
+    moved = blk[i0 : i1 + 1]
+    del blk[i0 : i1 + 1]
+    j = next(k for k, s in enumerate(blk) if isinstance(s, ast.If) and M.src_is(s.test, "conflicts_since_restart >= next_restart"))
+    blk[j + 1 : j + 1] = moved
+
+
 VARIANTS = [
+    M.Variant("pure-literal guard set holds signed literals (seed C02-A)", SAT, _v_assumed_literals, "C02-O4"),
+    M.Variant("learned clause stored and asserted after the restart block (seed C02-B)", SAT, _v_learn_after_restart, "C02-O5"),
+
     M.Variant("luby with the original descent test", SAT, _v_luby_original, "C02-O1"),
     M.Variant("luby never advances k", SAT, _v_luby_no_reset, "C02-O1"),
     M.Variant("conflict budget tested only at level 0", SAT, _v_no_conflict_budget, "C02-O2"),
